@@ -395,7 +395,7 @@ def main(argv):
     if drv is not None and hangs < 3 and fails < 12:
         scases = [(w, k, d, ch, inp) for (w, k, d, ch, inp) in tcases[:60]]
         for inp in (b"ab cd ef\nxyz\n", b"one\n", b"a b\n\nc d e\n", b""):
-            for ch in ("drop2", "extra"):
+            for ch in ("drop2", "extra", "number"):
                 scases.append((3, False, [32], ch, inp))
                 scases.append((80, True, None, ch, inp))
         sl = ["TS %d %d %s %s %s" % (w, 1 if k else 0, dl(d if d is not None else [58, 44, 32, 45, 46, 47]), ch, hx(inp)) for (w, k, d, ch, inp) in scases]
@@ -414,6 +414,12 @@ def main(argv):
                     c.broken.append("correspondence foldfilter_stream model vs bin/foldfilter: case %r: model %s, tool status %s stdout %s" % (l[:160], m[:120], st, hx(so)[:120]))
                     break
                 npieces_lines = len(inp.split(b"\n")) - 1
+                if ch == "number" and st == 0 and k:
+                    # oracle (keep mode): removing the "<i>:" prefixes in order gives the input; numbers are consecutive
+                    import re as _re
+                    nums = [int(x) for x in _re.findall(rb"(\d+):", so)]
+                    if _re.sub(rb"\d+:", b"", so) != inp or nums != list(range(1, len(nums) + 1)):
+                        c.violation("stateful-child: numbering child, output %r for input %r" % (so[:100], inp[:100]), {"op": "tool", "argv": argv[1:], "stdin": inp.decode("utf-8", "replace"), "stdout_hex": hx(so)})
                 if ch == "drop2" and st == 0 and m == "SHORT":
                     c.violation("line-structure-broken-unnoticed: child_drop2.py swallowed a line, foldfilter exit 0", {"op": "tool", "argv": argv[1:], "stdin": inp.decode("utf-8", "replace"), "status": st, "stdout_hex": hx(so)})
             c.cov["traces_validated_against_impl"] += len(sl)
